@@ -114,6 +114,8 @@ func (o op) String() string {
 		return fmt.Sprintf("resize(%dx%d quiet=%v)", o.W, o.H, o.Quiet)
 	case "winsizefail":
 		return fmt.Sprintf("WindowSize fails=%v", o.Lock)
+	case "writefault":
+		return fmt.Sprintf("next tty write fails after %d bytes", o.Seed)
 	}
 	return o.Kind
 }
@@ -204,9 +206,15 @@ func drawOps(t *rapid.T, maxW, maxH int, withResize bool) []op {
 	n := rapid.IntRange(1, 45).Draw(t, "nops")
 	var ops []op
 	for i := 0; i < n; i++ {
-		k := rapid.IntRange(0, 31).Draw(t, "op")
+		k := rapid.IntRange(0, 33).Draw(t, "op")
 		switch {
-		case k >= 30:
+		case k == 32 && withResize:
+			// the terminal is lent to another program and taken back
+			ops = append(ops, op{Kind: "suspend-resume"})
+		case k == 33 && withResize:
+			// the next write to the tty fails outright (0) or after a few bytes
+			ops = append(ops, op{Kind: "writefault", Seed: rapid.SampledFrom([]int{0, 0, 1, 3, 9, 20, 50}).Draw(t, "wfbytes")})
+		case k == 30 || k == 31:
 			// a run of mostly wide runes stored in adjacent columns (each
 			// hides the next), ending at the right edge: overlapping wide
 			// runes are where "which cell is visible" gets decided
@@ -298,6 +306,8 @@ type dw struct {
 	lastLocked   []bool
 	dirtyHist    bool // a Sync, resize, corruption or default-style change since the previous Show
 	corrupted    bool
+	lost         bool // a tty write failed: the terminal missed (part of) a frame
+	writeFault   bool // a write fault fired since the last Show/Sync was judged
 	racing       bool // a non-quiet resize happened: fidelity is suspended until the final repaint
 	libWrites    int  // writes by the library's own goroutines since the last Show
 	showsChecked int
@@ -346,6 +356,11 @@ func newDW(cfg hx.Config, ch *simrt.Chooser, prop string) (*dw, error) {
 		if g != "app" {
 			w.libWrites++
 		}
+	}
+	w.Tty.OnFault = func(kind string) {
+		// the cut may fall inside a control sequence or a character
+		w.T.AbortSequence()
+		w.writeFault = true
 	}
 	return w, nil
 }
@@ -731,6 +746,13 @@ func (w *dw) afterShow(kind string) {
 		return
 	}
 	w.M.Painted(kind == "Sync")
+	fault := w.writeFault
+	w.writeFault = false
+	if fault {
+		// (part of) this frame never reached the terminal: what it shows
+		// is unknown until a complete repaint gets through
+		w.lost = true
+	}
 	if w.racing || w.prop == "C09" {
 		return // C09 runs judge the syntax of the stream only
 	}
@@ -739,21 +761,30 @@ func (w *dw) afterShow(kind string) {
 	}
 	if kind == "Sync" {
 		w.corrupted = false
-	}
-	if msg := w.compare(fmt.Sprintf("after %s #%d", kind, w.block)); msg != "" {
-		tag := "C01/cell"
-		if kind == "Sync" {
-			tag = "C01/after-sync"
+		if !fault {
+			w.lost = false
 		}
-		if w.charset != nil {
-			tag = "C17/glyph"
-		}
-		w.fail(tag, "%s", msg)
-		return
 	}
-	if msg := w.compareCursor(fmt.Sprintf("after %s #%d", kind, w.block)); msg != "" {
-		w.fail("C01/cursor", "%s", msg)
-		return
+	if !w.lost {
+		if msg := w.compare(fmt.Sprintf("after %s #%d", kind, w.block)); msg != "" {
+			tag := "C01/cell"
+			if kind == "Sync" {
+				tag = "C01/after-sync"
+			}
+			if w.charset != nil {
+				tag = "C17/glyph"
+			}
+			w.fail(tag, "%s", msg)
+			return
+		}
+		if msg := w.compareCursor(fmt.Sprintf("after %s #%d", kind, w.block)); msg != "" {
+			w.fail("C01/cursor", "%s", msg)
+			return
+		}
+	}
+	if fault {
+		// the cut frame itself is not judged; the next Show is
+		w.dirtyHist = true
 	}
 	if kind == "Show" && !w.dirtyHist && w.libWrites == 0 {
 		w.checkStamps()
@@ -777,11 +808,38 @@ func (w *dw) appActor() {
 		}
 		switch o.Kind {
 		case "set":
-			sc.SetContent(o.X, o.Y, o.R, o.Comb, o.St.Build())
+			// the combining runes are passed in a scratch slice that the
+			// application reuses afterwards: the screen must have copied it
+			scratch := append([]rune(nil), o.Comb...)
+			sc.SetContent(o.X, o.Y, o.R, scratch, o.St.Build())
+			for i := range scratch {
+				scratch[i] = 0x1b
+			}
 			w.M.SetContent(o.X, o.Y, o.R, o.Comb, o.St)
 		case "fill":
 			sc.Fill(o.R, o.St.Build())
 			w.M.Fill(o.R, o.St)
+		case "suspend-resume":
+			_ = sc.Suspend()
+			if err := sc.Resume(); err != nil {
+				w.fail(w.prop+"/stall", "Resume failed: %v", err)
+				return
+			}
+			w.Tty.Faults.Inc("suspend_resume")
+			// as applications do, start from a blank logical screen
+			sc.LockRegion(0, 0, 64, 64, false)
+			sc.Clear()
+			w.M.Lock(0, 0, 64, 64, false)
+			w.M.Fill(' ', lm.Style{})
+			w.M.ResetPaint()
+			w.dirtyHist = true
+			w.lastShow = nil
+		case "writefault":
+			if o.Seed == 0 {
+				w.Tty.FailWrites = 1
+			} else {
+				w.Tty.ShortWrite = o.Seed
+			}
 		case "clear":
 			sc.Clear()
 			w.M.Fill(' ', lm.Style{})
@@ -856,9 +914,15 @@ func (w *dw) doResize(o op) {
 		w.fail("C09/syntax", "after a resize redraw the terminal rejected the output: %s", strings.Join(w.T.Errors, "; "))
 		return
 	}
+	if w.writeFault {
+		w.writeFault = false
+		w.lost = true
+		return
+	}
 	if w.corrupted {
 		w.corrupted = false // the resize redraw repaints everything
 	}
+	w.lost = false
 	if w.racing {
 		return
 	}
@@ -983,6 +1047,7 @@ func (w *dw) finalRepaint() {
 	s := w.S
 	fin := s.Spawn("app-final", func() {
 		w.Tty.WinSizeFail = false
+		w.Tty.FailWrites, w.Tty.ShortWrite = 0, 0
 		cw, chh := w.Scr.Size()
 		tw, th := w.Tty.W, w.Tty.H
 		if cw != tw || chh != th {
@@ -1005,6 +1070,7 @@ func (w *dw) finalRepaint() {
 		w.Scr.Sync()
 		w.racing = false
 		w.corrupted = false
+		w.lost, w.writeFault = false, false
 		w.dirtyHist = true
 		w.afterShow("Sync")
 	})
